@@ -5,5 +5,5 @@ CONSTANTS
   MaxVault = 5
 VIEW View
 CONSTRAINT Bound
-INVARIANTS InvPools InvCollateral InvVault InvDisjoint InvNonNeg EmitPath
+INVARIANTS InvPools InvCollateral InvVault InvDisjoint InvNonNeg
 CHECK_DEADLOCK FALSE
